@@ -268,23 +268,13 @@ Example CAES_example_mac :
   NASMacCalculate aes128 ex_nia ex_nia 255 ex_key 965368244 26 1 (Some []) = Err.
 Proof. vm_compute. repeat split. Qed.
 
-Print Assumptions CAES_sbox_is_definition.
 Print Assumptions CAES_aes_vectors.
-Print Assumptions CAES_aes_wf.
-Print Assumptions CAES_ctr_model_counters.
-Print Assumptions CAES_ctr_counter_agree.
 Print Assumptions CAES_nea2_eq_eea2.
-Print Assumptions CAES_nea2_aes_eq_EEA2.
-Print Assumptions CAES_encrypt_eea2.
-Print Assumptions CAES_cmac_model_eq_rfc4493.
 Print Assumptions CAES_nia2_eq_eia2.
-Print Assumptions CAES_nia2_aes_eq_EIA2.
-Print Assumptions CAES_mac_eia2.
 Print Assumptions CAES_ctr_length.
 Print Assumptions CAES_ctr_involution.
 Print Assumptions CAES_ctr_prefix.
 Print Assumptions CAES_ctr_keystream_indep.
-Print Assumptions CAES_ctr_total.
 Print Assumptions CAES_encrypt_dispatch.
 Print Assumptions CAES_encrypt_validation.
 Print Assumptions CAES_encrypt_null.
@@ -294,5 +284,19 @@ Print Assumptions CAES_mac_validation.
 Print Assumptions CAES_mac_null.
 Print Assumptions CAES_mac_len4.
 Print Assumptions CAES_total.
-Print Assumptions CAES_iface_from_laws.
-Print Assumptions CAES_iface_inhabited.
+
+(* the auxiliary statements, checked together (one traversal instead of twelve) *)
+Definition CAES_auxiliary :=
+  (CAES_sbox_is_definition,
+   CAES_aes_wf,
+   CAES_ctr_model_counters,
+   CAES_ctr_counter_agree,
+   CAES_nea2_aes_eq_EEA2,
+   CAES_encrypt_eea2,
+   CAES_cmac_model_eq_rfc4493,
+   CAES_nia2_aes_eq_EIA2,
+   CAES_mac_eia2,
+   CAES_ctr_total,
+   CAES_iface_from_laws,
+   CAES_iface_inhabited).
+Print Assumptions CAES_auxiliary.
